@@ -205,7 +205,9 @@ type vfc03Config struct {
 	Batch    int64
 }
 
-func (c vfc03Config) String() string { return fmt.Sprintf("%s/buf=%d/batch=%d", c.Strategy, c.Buf, c.Batch) }
+func (c vfc03Config) String() string {
+	return fmt.Sprintf("%s/buf=%d/batch=%d", c.Strategy, c.Buf, c.Batch)
+}
 
 func vfc03AllConfigs() []vfc03Config {
 	var out []vfc03Config
